@@ -401,6 +401,13 @@ impl Circuit {
 
     pub fn reset<C>(&mut self, config: &CircuitBreakerConfig<C>) {
         self.transition_to(CircuitState::Closed, config);
+        // `transition_to` is a no-op when already closed; a reset must still
+        // start from an empty window.
+        self.success_count = 0;
+        self.failure_count = 0;
+        self.total_count = 0;
+        self.slow_call_count = 0;
+        self.call_records.clear();
     }
 
     fn transition_to<C>(&mut self, state: CircuitState, config: &CircuitBreakerConfig<C>) {
